@@ -87,6 +87,10 @@ class DevEnv(Env):
                 self.sim.undefined_reads.append(
                     (name, off, off in ent["written"], self.sim.events,
                      ent["region"]))
+                # the first anomaly is the root cause; whatever it would
+                # lead to later (garbage copied on, faults) is consequence,
+                # so the execution stops here
+                raise RuntimeFault("first-anomaly", name)
         return val
 
     def awrite(self, name, idx, val):
@@ -155,8 +159,10 @@ class AccSim:
         # of the region, inside a compute construct or not, sees the device
         # copies of the arrays the clauses placed there
         dev = env if isinstance(env, DevEnv) else DevEnv(env, self, False)
+        failed = True
         try:
             yield from interp.exec_block(node.dir_body.children, dev, ctx)
+            failed = False
         finally:
             for name, mode in reversed(entered):
                 ent = self.present[name]
@@ -173,6 +179,8 @@ class AccSim:
                                                  self.events, id(node)))
                     host.data[:] = ent["arr"].data
                 del self.present[name]
+            if not failed and self.copied_back:
+                raise RuntimeFault("first-anomaly", self.copied_back[0][0])
 
     # -- compute constructs -----------------------------------------------
     def compute(self, node, env, ctx):
